@@ -140,7 +140,7 @@ func init() {
 	reg(&PropDef{
 		ID:    "C14",
 		Title: "Bridge deposits mint once, conditionally; withdrawals burn what they attest",
-		Funcs: append(fcNP("x/bridge/keeper.Keeper.ClaimDeposit", "x/bridge/keeper.Keeper.WithdrawTokens", "x/bridge/keeper.msgServer.WithdrawTokens", "x/bridge/keeper.Keeper.CreateWithdrawalAggregate", "x/oracle/keeper.Keeper.PreventBridgeWithdrawalReport"),
+		Funcs: append(fcNP("x/bridge/keeper.Keeper.ClaimDeposit", "x/bridge/keeper.Keeper.WithdrawTokens", "x/bridge/keeper.msgServer.WithdrawTokens", "x/bridge/keeper.Keeper.CreateWithdrawalAggregate", "x/oracle/keeper.Keeper.PreventBridgeWithdrawalReport", "x/bridge/keeper.msgServer.ClaimDeposits", "x/bridge/keeper.Keeper.GetWithdrawalReportValue"),
 			fc("x/bridge/keeper.Keeper.DecodeDepositReportValue")...),
 		Sweeps: []string{"sol_encodings"},
 		Assumptions: []string{
@@ -152,7 +152,7 @@ func init() {
 		NotDecided: []string{
 			"DecodeDepositReportValue truncates amount/10^12 with big.Int.Int64(): for a reported amount of 2^63 * 10^12 or more the coin amount wraps (NewInt64Coin panics on a negative one): the decoded-amount clauses are stated for amounts below that bound, the panic obligations are not claimed",
 			"that no reporter can create an aggregate for a withdrawal query as a whole-system statement: decided are that PreventBridgeWithdrawalReport rejects every query data of the form abi.encode(\"TRBBridge\", abi.encode(false, id)) and that SubmitValue rejects what it rejects; the other writers of Aggregates (SetAggregate via SetAggregatedReport) only aggregate submitted reports",
-			"batched claims (msgServer.ClaimDeposits loop)",
+			"the exact amount minted by a batch of claims (decided: every listed deposit passes through ClaimDeposit once, an already claimed or repeated id fails the batch, no unlisted deposit is marked)",
 		},
 	})
 	reg(&PropDef{
@@ -271,7 +271,7 @@ func init() {
 		Title: "No accepted transaction sequence can make block processing fail",
 		Funcs: fcNP("x/oracle/keeper.Keeper.WeightedMedian", "x/oracle/keeper.Keeper.WeightedMode", "x/oracle/keeper.Keeper.SetValue",
 			"x/oracle/keeper.Keeper.RotateQueries", "x/oracle/keeper.Keeper.GetCurrentQueryInCycleList", "x/oracle/keeper.Keeper.GetCyclelist", "x/oracle/keeper.Keeper.InitCycleListQuery",
-			"x/oracle/keeper.msgServer.UpdateCyclelist", "x/oracle/keeper.Keeper.ClearOldqueries", "x/oracle/keeper.Keeper.SetAggregatedReport", "x/oracle.EndBlocker", "x/dispute/keeper.Keeper.UpdateDispute",
+			"x/oracle/keeper.msgServer.UpdateCyclelist", "x/oracle/keeper.Keeper.ClearOldqueries", "x/oracle/keeper.Keeper.SetAggregatedReport", "x/oracle/keeper.Keeper.AllocateRewards", "x/oracle.EndBlocker", "x/dispute/keeper.Keeper.UpdateDispute",
 			"x/dispute.CheckOpenDisputesForExpiration", "x/dispute.CheckClosedDisputesForExecution", "x/dispute/keeper.Keeper.CloseDispute", "x/dispute/keeper.Keeper.AddDisputeRound", "x/reporter/keeper.Keeper.TrackStakeChange",
 			"x/mint.BeginBlocker", "x/mint.MintBlockProvision", "x/mint.SetPreviousBlockTime", "x/mint/keeper.Keeper.SendInflationaryRewards", "x/mint/keeper.Keeper.MintCoins", "x/mint/types.Minter.CalculateBlockProvision"),
 		Assumptions: []string{
